@@ -102,6 +102,41 @@ Example ex_victim_after_boost :
   snd (xstep current wprio xs (XHop HWatchdog)) = [1; 3].
 Proof. vm_compute. auto. Qed.
 
+(* ---- time-outs configured: the watchdog pass that handles a deadlock also reaps overdue operations ---- *)
+(* max_operation_time = 2 s; op1 (started at 0) and op2 (started at 3) deadlock; at time 4 only op1 is
+   overdue.  Strategy "oldest": the victim IS op1 - it is terminated as TIMEOUT (code 0), no DEADLOCK
+   event is added, it owns nothing afterwards and the cycle is gone.  With op1 exempt from time-outs it
+   is still the deadlock victim (code 3). *)
+Definition wmax2 : wcfg := mkW (Some 2) None None SOldest.
+Example ex_victim_already_overdue :
+  let hs s1 := [XHop s1; XTick 3; XHop (HStart 2 0); XHop (HAcquire 1 1); XHop (HAcquire 2 2);
+                XHop (HAcquire 1 2); XHop (HAcquire 2 1); XTick 1] in
+  let xs := xrun current wmax2 (xinit [(1, false); (2, false)]) (hs (HStart 1 5)) in
+  detect_cycle (edges (fst (fst xs))) = Some [1; 2] /\
+  select_victim wmax2 (fst (fst xs)) [1; 2] = Some 1 /\
+  snd (xstep current wmax2 xs (XHop HWatchdog)) = [1; 0] /\
+  let xs' := fst (xstep current wmax2 xs (XHop HWatchdog)) in
+  active (fst (fst xs')) = [2] /\ owner (fst (fst xs')) 1 = None /\ rec_edges (fst (fst xs')) = [] /\
+  let ys := xrun current wmax2 (xinit [(1, false); (2, false)]) (hs (HStartExempt 1 5)) in
+  snd (xstep current wmax2 ys (XHop HWatchdog)) = [1; 3].
+Proof. vm_compute. auto 10. Qed.
+
+(* starvation: op2 advanced to G1 and blocked for longer than starvation_timeout is reaped; the
+   wait-for edge goes with it; advance / tick / pop_next_waiter themselves never touch the relation *)
+Example ex_starvation_and_quiet_calls :
+  let w := mkW None (Some 1) None SPriority in
+  let xs := xrun current w (xinit [(1, false)])
+              [XHop (HStart 1 0); XHop (HStart 2 0); XHop (HAcquire 1 1); XAdvance 2; XHop (HAcquire 2 1)] in
+  rec_edges (fst (fst xs)) = [(2, 1, 1)] /\
+  let xs1 := xrun current w xs [XTick 2; XAdvance 1; XPopWaiter 1] in
+  rec_edges (fst (fst xs1)) = [(2, 1, 1)] /\ ref_edges (fst xs1) = [(2, 1, 1)] /\
+  snd (xstep current w xs (XPopWaiter 1)) = [1; 2; 0] /\
+  snd (xstep current w xs1 (XHop HWatchdog)) = [2; 1] /\
+  rec_edges (fst (fst (fst (xstep current w xs1 (XHop HWatchdog))))) = [] /\
+  snd (xstep current w xs1 (XHop (HKill 1))) = [1] /\
+  ref_edges (fst (fst (xstep current w xs1 (XHop (HKill 1))))) = [].
+Proof. vm_compute. auto 10. Qed.
+
 (* ------------------------------------------------------------------ *)
 (* before e0df91f a successful acquisition by X dropped the edges of operations
    still waiting on X: a real two-party deadlock was not reported *)
